@@ -89,3 +89,102 @@ S('c15-remove-unlink', ['C15', 'C11'], [(FS,
         try:
             os.unlink(path)""")],
   'os.unlink instead of os.remove')
+
+# ------------------------------------------------------------------ C11
+F('c11-isdir-rmtree', {'C11': ['R11.1']}, [(FS,
+  """    def remove_file2(self, path):
+        try:
+            os.remove(path)
+        except OSError:
+            shutil.rmtree(path)""",
+  """    def remove_file2(self, path):
+        if os.path.isdir(path):
+            shutil.rmtree(path)
+        else:
+            os.remove(path)""")],
+  'remover refactored to "if isdir: rmtree else: remove" (isdir follows a trashed symlink to a directory)')
+F('c11-rm-deletes-original-location', {'C11': ['R11.2']}, [('trashcli/rm/rm_cmd.py',
+  """                            trashcan.delete_trash_info_and_backup_copy(
+                                info_file)""",
+  """                            trashcan.delete_trash_info_and_backup_copy(
+                                info_file)
+                            FileRemover().remove_file_if_exists(original_location)""")],
+  'trash-rm also deletes the original location')
+F('c11-realpath-payload', {'C11': ['R11.2', 'R11.4']}, [(RM_CAN,
+  "backup_copy = path_of_backup_copy(trash_info_path)",
+  "import os\n        backup_copy = os.path.realpath(path_of_backup_copy(trash_info_path))")],
+  'payload path resolved with realpath before deletion (follows a trashed symlink)')
+F('c11-empty-moves', {'C11': ['R11.3']}, [(EMPTIER,
+  "                    self.file_remover.remove_file_if_exists(path)",
+  "                    import shutil\n                    shutil.move(path, path + '.old')\n                    self.file_remover.remove_file_if_exists(path + '.old')")],
+  'trash-empty renames entries before deleting them')
+F('c11-rmtree-first', {'C11': ['R11.1']}, [(FS,
+  """    def remove_file2(self, path):
+        try:
+            os.remove(path)
+        except OSError:
+            shutil.rmtree(path)""",
+  """    def remove_file2(self, path):
+        try:
+            shutil.rmtree(path)
+        except OSError:
+            os.remove(path)""")],
+  'rmtree attempted first')
+S('c11-remover-renamed', ['C11', 'C15', 'C14'], [(FS,
+  "class RealRemoveFileIfExists(RemoveFileIfExists, RemoveFile2):\n    def remove_file_if_exists(self, path):\n        if os.path.lexists(path): self.remove_file2(path)",
+  "class RealRemoveFileIfExists(RemoveFileIfExists, RemoveFile2):\n    def remove_file_if_exists(self, path):\n        present = os.path.lexists(path)\n        if not present:\n            return\n        self.remove_file2(path)")],
+  'early-return form of the existence guard')
+
+# ------------------------------------------------------------------ C14
+GUARD = 'trashcli/empty/guard.py'
+EPARSER = 'trashcli/empty/parser.py'
+F('c14-remove-in-both-branches', {'C14': ['R14.1']}, [(EMPTIER,
+  "                self.console.print_dry_run(path)\n",
+  "                self.console.print_dry_run(path)\n                self.file_remover.remove_file_if_exists(path)\n")],
+  'dry run also removes')
+F('c14-predicate-not-n', {'C14': ['R14.3']}, [('trashcli/empty/parse_reply.py',
+  "return reply[0:1].lower() == 'y'", "return reply[0:1].lower() != 'n'")],
+  'anything but n counts as consent (empty reply, EOF text)')
+F('c14-eof-default-yes', {'C14': ['R14.4', 'R14.3']}, [('trashcli/empty/user.py',
+  "        reply = self.input.read_input(self.prepare_output_message(trash_dirs))\n",
+  "        try:\n            reply = self.input.read_input(self.prepare_output_message(trash_dirs))\n        except EOFError:\n            reply = 'y'\n")],
+  'end of input treated as yes')
+F('c14-interactive-ignored', {'C14': ['R14.3']}, [(GUARD,
+  "        list_result = trash_dirs_list if ok_to_empty else []\n        return UserIntention(ok_to_empty=ok_to_empty,",
+  "        list_result = trash_dirs_list\n        return UserIntention(ok_to_empty=True,")],
+  'answer is read but ignored')
+F('c14-dryrun-default-swapped', {'C14': ['R14.5']}, [(EPARSER,
+  "                            action='store_true',\n                            help='show which files would have been removed',",
+  "                            action='store_false',\n                            help='show which files would have been removed',")],
+  '--dry-run becomes store_false')
+F('c14-dry-run-prints-other', {'C14': ['R14.2']}, [(EMPTIER,
+  "                self.console.print_dry_run(path)\n",
+  "                self.console.print_dry_run(path_of_backup_copy(path))\n")],
+  'dry run prints a different path than the one removed')
+F('c14-f-sets-interactive', {'C14': ['R14.5']}, [(EPARSER,
+  "                            action='store_false',\n                            help='don\\'t ask before emptying trash directories',",
+  "                            action='store_true',\n                            help='don\\'t ask before emptying trash directories',")],
+  '-f no longer clears interactive')
+S('c14-guard-inverted', ['C14', 'C15', 'C11'], [(EMPTIER,
+  """            if dry_run:
+                self.console.print_dry_run(path)
+            else:
+                if verbose:
+                    self.console.print_removing(path)
+                try:
+                    self.file_remover.remove_file_if_exists(path)
+                except OSError:
+                    self.console.print_cannot_remove_error(path)""",
+  """            if not dry_run:
+                if verbose:
+                    self.console.print_removing(path)
+                try:
+                    self.file_remover.remove_file_if_exists(path)
+                except OSError:
+                    self.console.print_cannot_remove_error(path)
+            else:
+                self.console.print_dry_run(path)""")],
+  'guard inverted')
+S('c14-predicate-startswith', ['C14'], [('trashcli/empty/parse_reply.py',
+  "return reply[0:1].lower() == 'y'", "return reply.lower().startswith('y')")],
+  'equivalent reply predicate')
